@@ -61,9 +61,9 @@ func c17TwinOne(c *core.Ctx, dir string, k c17TwinCase) {
 	}
 	sql := "SELECT id, " + strings.Join(sel, ", ") + " FROM t" + order
 	got, err := c17TwinColumns(dir, sql)
-	c.Eval("twins|"+k.Table+"|"+sql, true)
+	c.Eval(k.Family+"|"+k.Table+"|"+sql, true)
 	if err != nil {
-		c.Violate("twin-calls:error", fmt.Sprintf("t.csv = %q\n%s\n fails: %v", k.Table, sql, err), k)
+		c.Violate(k.Family+":error", fmt.Sprintf("t.csv = %q\n%s\n fails: %v", k.Table, sql, err), k)
 		return
 	}
 	pos := map[string]int{}
@@ -73,20 +73,20 @@ func c17TwinOne(c *core.Ctx, dir string, k c17TwinCase) {
 	for ci, call := range sel {
 		alone, aerr := c17TwinColumns(dir, "SELECT id, "+call+" FROM t"+order)
 		if aerr != nil {
-			c.Incomplete("family twin-calls: " + call + " alone fails: " + aerr.Error())
+			c.Incomplete("family " + k.Family + ": " + call + " alone fails: " + aerr.Error())
 			return
 		}
 		for i, r := range alone {
 			if k.Order {
 				// the row order is part of what is compared
 				if i >= len(got) || got[i][0] != r[0] {
-					c.Violate("twin-calls:order-by-key-taken-from-a-similar-select-column", fmt.Sprintf("t.csv = %q\n%s\n returns the ids in the order %v; with only %s in the select list the order is %v", k.Table, sql, c17Col(got, 0), call, c17Col(alone, 0)), k)
+					c.Violate(k.Family+":order-by-key-taken-from-a-similar-select-column", fmt.Sprintf("t.csv = %q\n%s\n returns the ids in the order %v; with only %s in the select list the order is %v", k.Table, sql, c17Col(got, 0), call, c17Col(alone, 0)), k)
 					return
 				}
 			}
 			j, ok := pos[r[0]]
 			if !ok || got[j][ci+1] != r[1] {
-				c.Violate("twin-calls:column-of-one-call-shows-a-similar-call's-values", fmt.Sprintf("t.csv = %q\n%s\n column %d (%s) = %v; the call alone gives %v", k.Table, sql, ci+2, call, c17Col(got, ci+1), c17Col(alone, 1)), k)
+				c.Violate(k.Family+":column-of-one-call-shows-a-similar-call's-values", fmt.Sprintf("t.csv = %q\n%s\n column %d (%s) = %v; the call alone gives %v", k.Table, sql, ci+2, call, c17Col(got, ci+1), c17Col(alone, 1)), k)
 				return
 			}
 		}
@@ -135,10 +135,10 @@ func c17TwinsRun(c *core.Ctx) {
 
 func c17TwinsReplay(c *core.Ctx, payload json.RawMessage) bool {
 	var k c17TwinCase
-	if json.Unmarshal(payload, &k) != nil || k.Family != "twin-calls" {
+	if json.Unmarshal(payload, &k) != nil || (k.Family != "twin-calls" && k.Family != "quoted-twins") {
 		return false
 	}
-	fmt.Printf("replaying family twin-calls: %v\n", k.Calls)
+	fmt.Printf("replaying family %s: %v\n", k.Family, k.Calls)
 	c17TwinOne(c, core.Scratch("c17twins-replay"), k)
 	return true
 }
